@@ -25,6 +25,8 @@ KNOWN = os.path.join(ROOT, "known_findings.txt")
 def _worker(pid, inst, tier, conn):
     try:
         sys.setrecursionlimit(20000)
+        import warnings
+        warnings.simplefilter("ignore")
         from symx.report import InstanceReport
         mod = importlib.import_module("harness." + pid)
         rep = InstanceReport(inst["name"])
